@@ -73,6 +73,10 @@ CONTAINERS = [
     ('seqof', 'A ::= SEQUENCE (SIZE(0..2)) OF %(t)s'),
     ('setof', 'A ::= SET OF %(t)s'),
     ('ref', 'A ::= SEQUENCE { x R, y R OPTIONAL }\nR ::= %(t)s'),
+    # explicit / implicit member tags (the tag wrapper must forward DEFAULT / OPTIONAL handling)
+    ('explicit', 'A ::= SEQUENCE { x [5] EXPLICIT %(t)s, z [6] BOOLEAN OPTIONAL }'),
+    ('explicit-default', 'A ::= SEQUENCE { x [0] EXPLICIT %(t)s DEFAULT %(d)s, z BOOLEAN }'),
+    ('implicit-default', 'A ::= SEQUENCE { x [0] IMPLICIT %(t)s DEFAULT %(d)s, z BOOLEAN }'),
 ]
 
 # use-site constraints on a shared referenced type (two members with the same name and reference)
@@ -86,7 +90,7 @@ SHARED = [
 
 QUICK_LEAVES = {'bool', 'int-0-7', 'int-m5-300', 'int-ext', 'enum-neg', 'enum-ext', 'bits-5', 'bits-named', 'octets-1-3',
                 'ia5-1-3', 'utf8', 'seq-ext', 'choice'}
-QUICK_CONTAINERS = {'default', 'addition', 'group', 'after-ext', 'choice-ext', 'seqof', 'setof', 'ref'}
+QUICK_CONTAINERS = {'default', 'addition', 'group', 'after-ext', 'choice-ext', 'seqof', 'setof', 'ref', 'explicit-default'}
 
 
 def _mod(body, tags):
@@ -97,8 +101,10 @@ def build():
     out = []
     for cid, ctext in CONTAINERS:
         for lid, kind, ltext, dflt in LEAVES:
-            if cid == 'default' and dflt is None:
+            if cid.endswith('default') and dflt is None:
                 continue
+            if cid.startswith('implicit') and lid == 'choice':
+                continue      # an IMPLICIT tag on a CHOICE is not legal
             if cid == 'top' and kind != 'struct':
                 continue      # single-leaf templates exist in the hand-written corpus
             if cid in ('seqof', 'setof') and lid == 'seqof':
